@@ -660,6 +660,15 @@ wait:
 		}
 		return result{Infra: "child produced no result: " + e}
 	}
+	// The log is taken from the events as they were streamed (each serialised at the moment it happened),
+	// not from the copy inside the child's final report: that report is written AFTER the pipeline has been
+	// told to stop, and stopping is when the tracker calls Stop on its copied time.Ticker, which makes the
+	// Go runtime write into memory that is not a timer.  Seen once: the partition key "1513" of an event
+	// logged long before came back as "[\x00\x00\x00" in the final report.
+	if len(evs) >= len(last.Log) && len(evs) > 0 {
+		last.Log = evs
+		last.TermAfter = termAfter(evs)
+	}
 	return *last
 }
 
